@@ -132,4 +132,11 @@ def run(ctx: core.Ctx) -> int:
     from . import c15 as _c15pp
     ctx.rule("PY-PURE", "no module-level / class-level mutable state shared between filters (shared with C01)")
     _c15pp.gen_pure(ctx, {"python": "py/formak/python.py", "common": "py/formak/common.py"}, rule="PY-PURE", floor=40)
+    # the sensor noise the update uses is the noise the caller gave compile_ekf by name (shared with C04)
+    from . import c04 as _c04ap
+    _pm = ctx.parse("py/formak/python.py")
+    _c04ap.arg_pass(ctx, _pm, core.find_class(_pm, "ExtendedKalmanFilter"), "py/formak/python.py")
+    # what is compiled is the user's expression / its exact derivative: no sympy rewriting outside the CSE gate (shared with C01)
+    from . import c01 as _c01nr
+    _c01nr.py_no_rewrite(ctx, _pm, "py/formak/python.py")
     return core.finish(ctx, explanation="E2 axis typing + E3 normal forms of sensor_model's records and results", **META)
